@@ -4,7 +4,7 @@
    ADiverge in the model, Stackoverflow in the crate).
    The menu natives log1 sub2 fail0 str1 mix3 t4 nil1 tab1 cat2 and the stdlib native __to_array never abort and
    preserve ninv.  call1 try1 call0 rb1 re-enter the interpreter: they never abort and preserve ninv when the
-   nested run does ([reenter_ok]).  The stdlib natives __min __max __sort are NOT covered. *)
+   nested run does ([reenter_ok]).  The stdlib natives __min __max __sort are in C04VmProofs6b.v. *)
 From Coq Require Import NArith ZArith List Lia Bool.
 From Cao Require Import ListUtil Bits Stacks Vm VmProofs C04VmProofs C04VmProofs2 C04VmProofs3 C04VmProofs4 C04VmProofs5.
 Import ListNotations.
